@@ -1,6 +1,7 @@
 //! tv-harness: correspondence harness shared code (PRNG, Gallina printers, case writer,
 //! VerifDirectory).  One binary per property lives in src/bin/.
 pub mod coqfmt;
+pub mod e1;
 pub mod out;
 pub mod rng;
 pub mod vdir;
